@@ -132,14 +132,21 @@ def extra_edits(root, rnd, kind):
     return root
 
 
-def types_variant(path, out, rnd, schema_path):
+def types_variant(path, out, rnd, schema_path, idx=None):
     root = ET.parse(path).getroot()
     # types of the fields the session pipeline interfaces fix (their Go types are part of session/messages)
     sroot = ET.parse(schema_path).getroot()
     pinned = {f.get("type") for f in sroot.find("fields") if f.get("name") in PIPELINE | FRAMING}
     ts = [t for t in root.find("types") if t.get("name") not in pinned]
-    t = rnd.choice(ts)
-    t.set("cast", rnd.choice(["String", "Int", "Float", "Raw"]))
+    # every cast the generator knows comes round (by variant index), on a type that fields of the schema really use
+    used = {f.get("type") for f in sroot.find("fields")}
+    ts_used = [t for t in ts if t.get("name") in used] or ts
+    casts = ["Raw", "Int", "Float", "String", "Bool", "Time"]
+    t = rnd.choice(ts_used)
+    t.set("cast", casts[idx % len(casts)] if idx is not None else rnd.choice(casts))
+    if idx is not None and idx % 2 == 0:   # and a second type, so that two casts differ from the shipped mapping at once
+        t2 = rnd.choice(ts_used)
+        t2.set("cast", casts[(idx // 2 + 3) % len(casts)])
     ET.ElementTree(root).write(out)
 
 
@@ -202,14 +209,14 @@ def check(prop, tier, seed):
         p = os.path.join(xdir, "variant-%d.xml" % i)
         ET.ElementTree(root).write(p)
         jobs.append((gendrv, fixgen, p, types, "variant-%d:%s" % (i, "+".join(e["op"] for e in sc_["script"]) or "none"), sc_["accept"], None, True))
-    for i in range(14 if quick else 98):
-        kind = ["rename", "addfield", "addmessage", "typemap", "moveframing", "deepgroup", "samegroup"][i % 7]
+    for i in range(16 if quick else 112):
+        kind = ["rename", "addfield", "addmessage", "typemap", "moveframing", "deepgroup", "samegroup", "typemap"][i % 8]
         p = os.path.join(xdir, "extra-%d.xml" % i)
         tp = small_t
         if kind == "typemap":
             shutil.copy(small, p)
             tp = os.path.join(xdir, "types-%d.xml" % i)
-            types_variant(small_t, tp, rnd, small)
+            types_variant(small_t, tp, rnd, small, idx=(i // 8) * 2 + (1 if i % 8 == 7 else 0))
         else:
             ET.ElementTree(extra_edits(ET.parse(small).getroot(), rnd, kind)).write(p)
         jobs.append((gendrv, fixgen, p, tp, "extra-%d:%s" % (i, kind), True, None, True))
